@@ -18,7 +18,7 @@ RULE = ("meshes with 0 / 1 / many triangles, vertex arrays float32 / float64, C-
         "corruption of valid files (index = n, 2^32-1, odd lengths) plus random bytes; integer affine "
         "transforms with det > 0, < 0 (mirrors) and shears; GIfTI files converted by mesh_file_to_precomputed "
         "with and without --coord-transform (mm -> nm), read back through the accessor; VTK export parsed by "
-        "a recogniser of Neuroglancer's VTK subset grammar; fragment-link files for labels up to 2^64-1. "
+        "a recogniser of Neuroglancer's VTK subset grammar; fragment-link files for labels up to 2^64-1 and fragment names with spaces, colons and non-ASCII letters. "
         "Trivial = empty mesh.")
 ASSUMPTIONS = [
     "'%.9g' formatting of float32 values round-trips exactly (checked by the VTK parse-back)",
